@@ -498,9 +498,28 @@ def generate(seed=0, validate=True, write=True, only=None):
     return stats, changed
 
 
-if __name__ == '__main__':
-    only = sys.argv[1:] or None
+def _load_regs():
+    """Import every tools/reg/*.py: each registers further traced functions with
+    `@gen.traced(...)` (one file per area, so that they can be edited independently)."""
+    import importlib
+    d = os.path.join(HERE, 'reg')
+    if os.path.isdir(d):
+        for f in sorted(os.listdir(d)):
+            if f.endswith('.py') and not f.startswith('_'):
+                importlib.import_module('reg.' + f[:-3])
+
+
+def main(argv):
+    only = argv or None
     st, ch = generate(only=only)
     for s in st:
         print(s)
     print('changed:', ch)
+
+
+if __name__ == '__main__':
+    # always run as module `gen` so that reg/*.py see the same REGISTRY
+    import gen
+    gen.main(sys.argv[1:])
+else:
+    _load_regs()
